@@ -290,7 +290,7 @@ impl<'a> Flat<'a> {
                 Node::Equ(name, e) => {
                     let k = name.to_lowercase();
                     if self.equs.contains_key(&k) {
-                        return Err(RefErr::Indeterminate("duplicate .equ".into()));
+                        return fail(FailKind::DuplicateSymbol(name.clone()), file, here);
                     }
                     self.equs.insert(k, e.clone());
                 }
@@ -652,6 +652,10 @@ pub fn assemble(files: &[SourceFile]) -> RefResult {
                 let k = l.to_lowercase();
                 if labels.contains_key(&k) {
                     return fail(FailKind::DuplicateLabel(l.clone()), p.file, p.line);
+                }
+                // a name has one definition: a label cannot share its name with an .equ
+                if fl.equs.contains_key(&k) {
+                    return fail(FailKind::DuplicateSymbol(l.clone()), p.file, p.line);
                 }
                 labels.insert(k, (seg, cur));
             }
